@@ -13,30 +13,30 @@ PROPS = {
     'C01': {
         'correspondence': CORR_L1,
         'coq': ['theories/Props/C01.vo', 'theories/Inst/C01_now.vo'],
-        'profiles': [prof('core', (60, 15), (1500, 60)), prof('sync', (40, 15), (800, 60)), prof('fut', (50, 15), (1000, 60)), prof('fsync', (30, 10), (600, 40)), prof('pipein', (20, 10), (400, 40), extra=['--max-steps', '30000'])],
+        'profiles': [prof('core', (60, 15), (1500, 60)), prof('sync', (40, 15), (800, 60)), prof('fut', (50, 15), (1000, 60)), prof('fsync', (30, 10), (600, 40)), prof('pipein', (20, 10), (400, 40), extra=['--max-steps', '30000']), prof('sweep:overlap_sweep.progs', (0, 2), (0, 12))],
         'monitors': ['C01'], 'liveness': False, 'panics': False,
         'trusted_base': L1_TRUST,
         'assumptions': ['future-based operations are covered by the run-time occupancy monitor only, not yet by a theorem'],
     },
     'C03': {
         'correspondence': CORR_L1,
-        'coq': ['theories/Props/C03.vo', 'theories/Inst/C03_now.vo', 'theories/L1h/PropsC03once.vo', 'theories/L1h/Inst.vo'],
-        'profiles': [prof('pool', (80, 20), (2000, 80)), prof('core', (40, 10), (1000, 40), extra=['--min-pool', '1'])],
+        'coq': ['theories/Props/C03.vo', 'theories/Inst/C03_now.vo', 'theories/L1h/PropsC03once.vo', 'theories/L1h/Inst.vo', 'theories/L1b/PropsLbound.vo', 'theories/L1b/Inst.vo'],
+        'profiles': [prof('pool', (80, 20), (2000, 80)), prof('core', (40, 10), (1000, 40), extra=['--min-pool', '1']), prof('fut', (50, 15), (1000, 60), extra=['--min-pool', '1'])],
         'monitors': ['C03'], 'liveness': True, 'panics': False,
         'trusted_base': L1_TRUST,
-        'assumptions': ['L-quiet excludes stranding and deadlock; livelock is excluded only by the step bound of the controlled runtime'],
+        'assumptions': ['L-quiet (terminal => complete) plus L-bound (every run of the L1 model is shorter than an explicit bound: no livelock) give: every maximal execution ends complete; both for layer L1 (operations that do not suspend)'],
     },
     'C02': {
         'correspondence': CORR_L1,
-        'coq': ['theories/L1h/PropsC02.vo', 'theories/L1h/Inst.vo'],
-        'profiles': [prof('core', (60, 15), (1500, 60)), prof('sync', (40, 15), (800, 60)), prof('fut', (40, 15), (800, 40)), prof('fsync', (30, 10), (600, 40))],
+        'coq': ['theories/L1h/PropsC02.vo', 'theories/L1h/Inst.vo', 'theories/L1r/PropsObjExec.vo', 'theories/L1r/Inst.vo'],
+        'profiles': [prof('core', (60, 15), (1500, 60)), prof('sync', (40, 15), (800, 60)), prof('fut', (40, 15), (800, 40)), prof('fsync', (30, 10), (600, 40)), prof('sweep:overlap_sweep.progs', (0, 2), (0, 12))],
         'monitors': ['C02'], 'liveness': False, 'panics': False,
         'trusted_base': L1_TRUST + ['L1h: history observer over the unmodified L1 step function'],
         'assumptions': ['the theorem covers desync/sync/try_sync (layer L1); the order of future-based operations is covered by the run-time order oracle only until the L2 layer is finished'],
     },
     'C04': {
         'correspondence': CORR_L1,
-        'coq': ['theories/Props/C04.vo', 'theories/Inst/C04_now.vo', 'theories/L1h/PropsC04.vo', 'theories/L1h/Inst.vo'],
+        'coq': ['theories/Props/C04.vo', 'theories/Inst/C04_now.vo', 'theories/L1h/PropsC04.vo', 'theories/L1h/Inst.vo', 'theories/L1b/PropsLbound.vo', 'theories/L1b/Inst.vo'],
         'profiles': [prof('sync', (80, 20), (2000, 80)), prof('core', (40, 10), (800, 40)), prof('pool', (30, 10), (600, 40)), prof('fut', (40, 15), (800, 60), extra=['--max-pool', '1'])],
         'monitors': ['C04'], 'liveness': True, 'panics': True,
         'trusted_base': L1_TRUST,
@@ -45,7 +45,7 @@ PROPS = {
     'C05': {
         'correspondence': CORR_L1,
         'coq': ['theories/L1h/PropsC05.vo', 'theories/L1h/Inst.vo'],
-        'profiles': [prof('drop', (80, 20), (2000, 80)), prof('core', (30, 10), (600, 40)), prof('pipein', (40, 15), (600, 60), extra=['--max-steps', '30000']), prof('pipedrop', (30, 10), (400, 40), extra=['--max-steps', '30000'])],
+        'profiles': [prof('drop', (80, 20), (2000, 80)), prof('core', (30, 10), (600, 40)), prof('pipein', (40, 15), (600, 60), extra=['--max-steps', '30000']), prof('pipedrop', (30, 10), (400, 40), extra=['--max-steps', '30000']), prof('sweep:drop_sweep.progs', (0, 2), (0, 12), extra=['--max-steps', '30000'])],
         'monitors': ['C05'], 'liveness': True, 'panics': True,
         'trusted_base': L1_TRUST + ['drop is modelled as what the code does: a final sync whose closure frees the value (fact drop_is_sync_free)'],
         'assumptions': ['freed-exactly-once and no-use-after-free are observed by the payload monitors (drop counter, dead flag) on the real crate; the theorem gives the ordering that makes them true'],
@@ -60,7 +60,7 @@ PROPS = {
     'C09': {
         'correspondence': CORR_L1,
         'coq': ['theories/Props/C09.vo', 'theories/Inst/C09_now.vo'],
-        'profiles': [prof('try', (80, 20), (2000, 80))],
+        'profiles': [prof('try', (80, 20), (2000, 80)), prof('sweep:overlap_sweep.progs', (0, 2), (0, 12))],
         'monitors': ['C09'], 'liveness': True, 'panics': False,
         'trusted_base': L1_TRUST,
         'assumptions': [],
@@ -82,6 +82,7 @@ PROPS = {
         'assumptions': ['the Desync object is abstracted as ObjExec (exclusive FIFO execution); a processing future that suspends is one step'],
     },
     'C12': {
+        'correspondence': {'kind': 'pipe', 'profiles': [prof('pipe', (40, 5), (400, 10)), prof('progs:pipe_extra.progs', (0, 4), (0, 30))]},
         'coq': ['theories/Pipe/PropsC12.vo', 'theories/Inst/C12_now.vo'],
         'profiles': [prof('pipe', (80, 20), (1500, 60), extra=['--max-steps', '30000'])],
         'monitors': ['C12', 'C01', 'C05'], 'liveness': True, 'panics': True,
@@ -89,6 +90,7 @@ PROPS = {
         'assumptions': ['the Desync object is abstracted as ObjExec; the processing future is one step; depth 0 is excluded (it wedges the pipe by design of the code: nothing is read while pending.len() >= 0)'],
     },
     'C16': {
+        'correspondence': {'kind': 'pipe', 'profiles': [prof('pipedrop', (40, 5), (400, 10)), prof('progs:pipe_extra.progs', (0, 4), (0, 30))]},
         'coq': ['theories/Pipe/PropsC16.vo', 'theories/Inst/C16_now.vo'],
         'profiles': [prof('pipedrop', (80, 25), (1500, 80), extra=['--max-steps', '30000'])],
         'monitors': ['C16', 'C12', 'C05'], 'liveness': True, 'panics': True,
